@@ -13,7 +13,7 @@ def build(ctx):
     ctx.log("translate", out)
     if not ok:
         ctx.diag.append("translator failed: " + out[-300:])
-    C.prove(ctx, ["Props/C12.v", "Props/C12Valid.v", "Props/C12Opts.v"], ["Oblig/C12Obl.v", "Oblig/ValidFlatObl.v", "Oblig/OptSitesObl.v", "Oblig/C12OptsObl.v"])
+    C.prove(ctx, ["Props/C12.v", "Props/C12Valid.v", "Props/C12Opts.v", "Props/C12Full.v"], ["Oblig/C12Obl.v", "Oblig/ValidFlatObl.v", "Oblig/OptSitesObl.v", "Oblig/C12OptsObl.v", "Oblig/C12FullObl.v"])
     ok, out = C.build_harness()
     ctx.log("go build", out)
     if not ok:
@@ -23,7 +23,49 @@ def build(ctx):
     ctx.log("ocaml", out[-3000:])
     if not ok:
         ctx.diag.append("extracted model does not build: " + out[-600:])
+    ok, out = C.build_ocaml("c12full")
+    ctx.log("ocaml c12full", out[-3000:])
+    if not ok:
+        ctx.diag.append("extracted whole-function model (FlattenFull) does not build: " + out[-600:])
     return True
+
+
+def corr_full(ctx):
+    """Phase 6: the whole Flatten function (Model/FlattenFull.v: consolidation + C05's Create models + File.Create +
+    the sanity checks) against the real FlattenBatches: outcome class, batch controls, trace numbers, file control,
+    Batch.Category()."""
+    import json
+    d = os.path.join(ctx.rundir, "corr-full")
+    os.makedirs(d, exist_ok=True)
+    args = [os.path.join(C.BIN, "c12"), "corrfull", "-out", d, "-n", str(ctx.scale(1600, 16000)), "-nbig", str(ctx.scale(150, 1500)),
+            "-naug", str(ctx.scale(500, 5000)), "-corpus", CORPUS]
+    rc, out = C.sh(args, timeout=3000)
+    ctx.log("corr-full", out[-1500:])
+    drv = os.path.join(C.BUILD, "ocaml", "c12full", "driver")
+    if rc != 0 or not os.path.exists(drv):
+        ctx.diag.append("whole-function correspondence could not run: " + out[-300:])
+        return
+    rc2, out2 = C.sh("%s %s > %s" % (drv, os.path.join(d, "cases.txt"), os.path.join(d, "model.txt")), timeout=3000)
+    if rc2 != 0:
+        ctx.diag.append("extracted whole-function model crashed: " + out2[-300:])
+    ctx.compare("FlattenBatches, whole function (FlattenFull.flatten_full_stable / _hint)", os.path.join(d, "model.txt"),
+                os.path.join(d, "impl.txt"), os.path.join(d, "specs.jsonl"))
+    # the same run is a direct oracle for C12_succeeds: every generated file is valid, a failure of FlattenBatches
+    # is reported under the key of its cause
+    before = len(ctx.fails)
+    summ = ctx.read_jsonl(os.path.join(d, "full-oracle.jsonl"))
+    for f in ctx.fails[before:]:
+        f["input"] = f.get("case")
+    ctx.add_summary(summ, "FlattenBatches whole-function oracle")
+    try:
+        info = json.loads(out.strip().splitlines()[-1])
+        ctx.cov.setdefault("distribution", {})["whole-function correspondence"] = info
+        if info.get("cases", 0) < 1500 and ctx.tier == "quick":
+            ctx.diag.append("whole-function correspondence: only %d cases" % info.get("cases", 0))
+        if info.get("distribution", {}).get("files_mixed_category_same_signature", 0) < 100:
+            ctx.diag.append("whole-function correspondence: too few files with mixed categories under one signature")
+    except (ValueError, IndexError):
+        pass
 
 
 def oracle(ctx, n, sub="oracle"):
@@ -52,8 +94,9 @@ def run(ctx):
     ctx.search = search
     ctx.trusted += ["flatten-source analysis of the translator (translator/flatten.go: syntactic shapes of GetHeaderSignature, the sort.Slice comparators, canMerge, the candidate loop and Consume)",
                     "header signature and entry identity as observed by the harness (first 87 columns of the rendered header; rendered entry + addenda without trace/sequence columns, sha256-abbreviated in the interchange)",
+                    "payload observation of harness/cmd/c12/full.go (service class, ODFI, header validity, transaction code, routing number, check digit, addenda presence per entry) and the payload lookup of ocaml/c12full/driver.ml",
                     "the processing order for more than 12 batches is obtained by replaying sort.Slice on the entry counts (untrusted hint: the extracted checker flatten_hint re-validates it)"]
-    ctx.assumptions += ["Batch.Create/File.Create/Validate of the consolidated batches is not modelled (validity of the result is checked by the oracle only; C05 owns Create)",
+    ctx.assumptions += ["whole-function theorems (Props/C12Full.v: C12_succeeds, C12_valid) are about files of standard non-ADV batches under default validation options; IAT and ADV batches are inside the executable whole-function model and its correspondence, not inside these two theorems; of Validate only what Arith models (SEC specific rules, addenda sequence numbers: oracle)",
                         "inputs are files valid under default validation options (trace numbers strictly ascending inside a batch and prefixed by the header's ODFI)"]
     if not build(ctx):
         return
@@ -75,6 +118,7 @@ def run(ctx):
             pass
     else:
         ctx.diag.append("correspondence could not run: " + out[-300:])
+    corr_full(ctx)
     validout.run(ctx, "flatten")
     summ = oracle(ctx, ctx.scale(9000, 40000))
     ctx.add_summary(summ, "FlattenBatches oracle")
@@ -94,6 +138,16 @@ def replay(path):
     if not ok:
         print(out[-2000:])
         return 1
+    try:
+        import json
+        d = json.load(open(path))
+        inp = d.get("input", d)
+        if isinstance(inp, dict) and "file" in inp:   # phase-6 recipe (harness/cmd/c12/full.go)
+            rc, out = C.sh([os.path.join(C.BIN, "c12"), "replayfull", path], timeout=600)
+            print(out)
+            return 1 if rc != 0 else 0
+    except (OSError, ValueError):
+        pass
     rc, out = C.sh([os.path.join(C.BIN, "c12"), "replay", path], timeout=600)
     print(out)
     return 1 if rc != 0 else 0
